@@ -199,8 +199,12 @@ def finalize(res):
         'coverage': cov, 'assumptions': res.assumptions,
         'wall_s': round(time.time() - res.t0, 2), 'violations': n_unlisted,
     }
-    os.makedirs(os.path.join(VERIF, 'evidence'), exist_ok=True)
-    with open(os.path.join(VERIF, 'evidence', res.prop + '.json'), 'w') as f:
+    # evidence always describes /repo itself: runs against another tree (mutants) write elsewhere
+    evdir = os.environ.get('VERIF_EVIDENCE_DIR') or os.path.join(VERIF, 'evidence')
+    if os.path.realpath(REPO) != '/repo' and not os.environ.get('VERIF_EVIDENCE_DIR'):
+        evdir = os.path.join(VERIF, 'scratch', 'evidence-other-tree')
+    os.makedirs(evdir, exist_ok=True)
+    with open(os.path.join(evdir, res.prop + '.json'), 'w') as f:
         json.dump(ev, f, indent=1, sort_keys=True, default=repr)
         f.write('\n')
     if os.environ.get('VERIF_DUMP_VIOLATIONS'):
